@@ -64,6 +64,10 @@ pub struct SrvFaultCase {
     pub proto: ServerProto,
     /// (start in virtual ms, event)
     pub events: Vec<(u64, Event)>,
+    /// TLS servers only: built with Server::with_tls_connection_info() (the make-service is
+    /// wrapped in the layer that passes the handshake's outcome on to the requests)
+    #[serde(default)]
+    pub tls_info: bool,
 }
 
 pub struct SrvFaultSim;
@@ -320,13 +324,19 @@ fn enumerated() -> Vec<SrvFaultCase> {
             }
             for f in faults {
                 for proto in [ServerProto::Auto, ServerProto::H1] {
-                    v.push(SrvFaultCase {
-                        seed: 7,
-                        net,
-                        tls,
-                        proto,
-                        events: vec![(0, Event::Good(1)), (1, Event::Fault(f.clone())), (1, Event::Good(2)), (5, Event::Good(3))],
-                    });
+                    for tls_info in [false, true] {
+                        if tls_info && !tls {
+                            continue;
+                        }
+                        v.push(SrvFaultCase {
+                            seed: 7,
+                            net,
+                            tls,
+                            proto,
+                            events: vec![(0, Event::Good(1)), (1, Event::Fault(f.clone())), (1, Event::Good(2)), (5, Event::Good(3))],
+                            tls_info,
+                        });
+                    }
                 }
             }
         }
@@ -377,7 +387,8 @@ impl Scenario for SrvFaultSim {
             events.push((r.below(60), Event::Good(id)));
         }
         events.sort_by_key(|e| e.0);
-        SrvFaultCase { seed, net, tls, proto, events }
+        let tls_info = tls && r.bool();
+        SrvFaultCase { seed, net, tls, proto, events, tls_info }
     }
 
     fn execute(&self, case: &SrvFaultCase) -> Outcome {
@@ -407,7 +418,7 @@ impl Scenario for SrvFaultSim {
                     NetKind::Sim => {
                         let acc = net.listen("http://srv.test");
                         let h = tokio::task::spawn_local({
-                            let f = run_server(acc, case.proto, tls_cfg, ctx, exec.clone(), None);
+                            let f = run_server_opts(acc, case.proto, tls_cfg, ctx, exec.clone(), None, false, case.tls_info);
                             async move { f.await.map_err(|e| e.to_string()) }
                         });
                         (h, Connector::Sim(net.clone()))
@@ -415,7 +426,7 @@ impl Scenario for SrvFaultSim {
                     NetKind::Duplex => {
                         let (client, incoming) = hyperdriver::stream::duplex::pair();
                         let h = tokio::task::spawn_local({
-                            let f = run_duplex_server(incoming, case.proto, tls_cfg, ctx, exec.clone());
+                            let f = run_duplex_server(incoming, case.proto, tls_cfg, ctx, exec.clone(), case.tls_info);
                             async move { f.await.map_err(|e| e.to_string()) }
                         });
                         (h, Connector::Duplex(client))
@@ -552,8 +563,9 @@ async fn run_duplex_server(
     tls: Option<Arc<rustls::ServerConfig>>,
     ctx: HandlerCtx,
     exec: SimExecutor,
+    tls_info: bool,
 ) -> Result<(), hyperdriver::server::ServerError> {
-    run_acceptor_server(hyperdriver::server::conn::Acceptor::from(incoming), proto, tls, ctx, exec).await
+    run_acceptor_server(hyperdriver::server::conn::Acceptor::from(incoming), proto, tls, ctx, exec, tls_info).await
 }
 
 /// The same server as `run_server`, behind hyperdriver's stock `Acceptor` (duplex, TCP or Unix).
@@ -563,6 +575,7 @@ pub async fn run_acceptor_server(
     tls: Option<Arc<rustls::ServerConfig>>,
     ctx: HandlerCtx,
     exec: SimExecutor,
+    tls_info: bool,
 ) -> Result<(), hyperdriver::server::ServerError> {
     use hyperdriver::bridge::rt::TokioExecutor;
     let acc = match tls {
@@ -579,18 +592,28 @@ pub async fn run_acceptor_server(
         let ctx = ctx.clone();
         async move { Ok::<_, std::convert::Infallible>(tower::service_fn(move |req: http::Request<hyperdriver::Body>| handle(ctx.clone(), conn, req))) }
     });
+    macro_rules! serve {
+        ($b:expr) => {{
+            let b = $b;
+            match proto {
+                ServerProto::H1 => {
+                    let mut p = hyperdriver::server::conn::http1::Builder::new();
+                    p.auto_date_header(false);
+                    b.with_protocol(p).with_executor(exec).await
+                }
+                _ => {
+                    let mut p = hyperdriver::server::AutoBuilder::new(TokioExecutor::new());
+                    p.http1().auto_date_header(false);
+                    p.http2().auto_date_header(false);
+                    b.with_protocol(p).with_executor(exec).await
+                }
+            }
+        }};
+    }
     let b = hyperdriver::Server::builder::<hyperdriver::Body>().with_acceptor(acc).with_make_service(make);
-    match proto {
-        ServerProto::H1 => {
-            let mut p = hyperdriver::server::conn::http1::Builder::new();
-            p.auto_date_header(false);
-            b.with_protocol(p).with_executor(exec).await
-        }
-        _ => {
-            let mut p = hyperdriver::server::AutoBuilder::new(TokioExecutor::new());
-            p.http1().auto_date_header(false);
-            p.http2().auto_date_header(false);
-            b.with_protocol(p).with_executor(exec).await
-        }
+    if tls_info {
+        serve!(b.with_tls_connection_info())
+    } else {
+        serve!(b)
     }
 }
